@@ -412,6 +412,17 @@ func (cl *c15Client) run(frame *int64) {
 		for open && !cl.quitting() {
 			_, open = cl.readSome(16384, 100*time.Millisecond)
 		}
+	case "stall-slow":
+		// stall until the kernel buffers and the queue are full, then read below the publishing rate:
+		// the queue hovers around full, every freed slot is an instant between two parts of a write
+		select {
+		case <-cl.quit:
+		case <-time.After(time.Duration(p.StallMs) * time.Millisecond):
+		}
+		for open && !cl.quitting() {
+			_, open = cl.readSome(p.SlowChunk, 50*time.Millisecond)
+			time.Sleep(time.Duration(p.SlowSleepMs) * time.Millisecond)
+		}
 	case "slow":
 		for open && !cl.quitting() {
 			_, open = cl.readSome(p.SlowChunk, 50*time.Millisecond)
@@ -572,9 +583,16 @@ func c15Run(c *fw.Ctx, i int) {
 	if i%2 == 1 {
 		wto = 10000
 	}
+	// queue capacity: multi-part writes come in pairs, so with an even capacity a queue that fills
+	// from empty always fills at a pair boundary; odd capacities put the queue-full instant between
+	// the two parts
+	queue := []int{64, 63, 61}[(i/2)%3]
+	httpflv.SubSessionWriteChanSize = queue
+	httpts.SubSessionWriteChanSize = queue
+	rtsp.VerifSetCmdWriteChanSize(queue)
 	httpflv.SubSessionWriteTimeoutMs = wto
 	httpts.SubSessionWriteTimeoutMs = wto
-	rtmp.VerifSetServerWriteParams(c15Queue, wto)
+	rtmp.VerifSetServerWriteParams(queue, wto)
 	base3 := i / 3
 	k := []int{1, 4, 16}[i%3]
 	r := c.Rng
@@ -609,7 +627,16 @@ func c15Run(c *fw.Ctx, i int) {
 		p.SlowSleepMs = 2 + r.Intn(19)
 		plans = append(plans, p)
 	}
-	c.Describe("k=%d write_timeout_ms=%d plans=%+v", k, wto, plans)
+	if i%2 == 1 {
+		// multi-part writes (WebSocket header + payload) are exposed at the instants the queue
+		// becomes full and while it hovers around full during a resume: four extra WebSocket
+		// consumers that stall beyond the kernel's buffering and then resume
+		for j := 0; j < 4; j++ {
+			plans = append(plans, c15Plan{Kind: []string{"wsflv", "wsrtsp"}[j%2], Mode: []string{"stall-slow", "stall-resume"}[j/2], Stream: "a", StallAt: []int{1, 5000, 60000, 200000}[r.Intn(4)],
+				StallMs: 1200 + r.Intn(2500), SlowChunk: []int{2048, 4096, 8192}[r.Intn(3)], SlowSleepMs: 2 + r.Intn(5)})
+		}
+	}
+	c.Describe("k=%d write_timeout_ms=%d queue=%d plans=%+v", k, wto, queue, plans)
 
 	nMedia := c15DisconnectFrames + c15MinFrames + 1500
 	pubs := []*c15Pub{{name: "a"}, {name: "b"}}
@@ -1233,7 +1260,7 @@ func init() {
 		Setup:       c15Setup,
 		Batches:     func(string) int { return 18 },
 		CaseTimeout: func(string) time.Duration { return 3 * time.Minute },
-		Rule: "whole-server runs with write queues of 64 entries, write timeouts of 1000 ms (even cases; closes a blocked writer first) or 10 000 ms (odd cases; the 2 s liveness sweep disposes it while its writer is blocked). Two RTMP publishers send tagged H.264+AAC frames (6–30 KB video, ≤313 B audio) at ≤500 frames/s to streams a and b; healthy RTMP and HTTP-FLV witnesses time-stamp every frame. k ∈ {1,4,16} consumers join over RTMP, HTTP-FLV, WS-FLV, HTTP-TS, RTSP interleaved and WS-RTSP and stop reading for good / read 4–32 KiB every 2–20 ms (0.2 … 16 MB/s against ≈3.4 MB/s published per stream) / stop for 0.3–2.5 s and resume (the kernel absorbs ≈2.8 MB ≈ 0.9 s before the 64-entry queue starts to fill), from a seeded byte offset (0 … 300 000). Oracles: (1) every frame published after the witnesses joined reaches them, in order, with latency, publisher send time and pacing wait ≤ 3 s (control window before the consumers join must be ≤ 0.5 s, else inconclusive); (2) a consumer that never reads again gets sub_stop within 4000 publisher frames (each ≥ 2 ms) of stalling and its socket reaches EOF; (3) all bytes a stalled consumer read parse with the reference HTTP/FLV/WebSocket/TS/RTMP-chunk/interleaved parsers, every audio/video unit is byte-identical to a published message and units are in publish order (gaps allowed), TS packets stay 188-aligned with known PIDs, every WS-RTSP frame holds exactly one interleaved packet, RTP sequence numbers only move forward; a trailing partial unit is accepted only on a connection the server closed. cell = protocol × plan × k.",
+		Rule: "whole-server runs with write queues of 64, 63 or 61 entries (multi-part writes come in pairs: an odd capacity puts the queue-full instant between the parts), write timeouts of 1000 ms (even cases; closes a blocked writer first) or 10 000 ms (odd cases; the 2 s liveness sweep disposes it while its writer is blocked). Two RTMP publishers send tagged H.264+AAC frames (6–30 KB video, ≤313 B audio) at ≤500 frames/s to streams a and b; healthy RTMP and HTTP-FLV witnesses time-stamp every frame. k ∈ {1,4,16} consumers join over RTMP, HTTP-FLV, WS-FLV, HTTP-TS, RTSP interleaved and WS-RTSP and stop reading for good / read 4–32 KiB every 2–20 ms (0.2 … 16 MB/s against ≈3.4 MB/s published per stream) / stop for 0.3–2.5 s and resume (the kernel absorbs ≈2.8 MB ≈ 0.9 s before the 64-entry queue starts to fill), from a seeded byte offset (0 … 300 000); odd cases add four WebSocket consumers (WS-FLV, WS-RTSP) that stall for 1.2–3.7 s and then resume at full speed or read at 0.3–4 MB/s (below the publishing rate, so that the queue hovers around full). Oracles: (1) every frame published after the witnesses joined reaches them, in order, with latency, publisher send time and pacing wait ≤ 3 s (control window before the consumers join must be ≤ 0.5 s, else inconclusive); (2) a consumer that never reads again gets sub_stop within 4000 publisher frames (each ≥ 2 ms) of stalling and its socket reaches EOF; (3) all bytes a stalled consumer read parse with the reference HTTP/FLV/WebSocket/TS/RTMP-chunk/interleaved parsers, every audio/video unit is byte-identical to a published message and units are in publish order (gaps allowed), TS packets stay 188-aligned with known PIDs, every WS-RTSP frame holds exactly one interleaved packet, RTP sequence numbers only move forward; a trailing partial unit is accepted only on a connection the server closed. cell = protocol × plan × k.",
 		Assumptions: []string{"loopback TCP; the server-side send buffer is the kernel default (no hook), so the queue-full instants depend on kernel buffering", "delay bound 3 s and disconnect bound 2×(timeout+sweep)+3 s are this check's reading of 'a small bound'"},
 		MinCells: 6,
 		Run:      c15Run,
